@@ -6,7 +6,11 @@ CONSTANTS MaxVal
 VARIABLES val, act
 cvars == <<val, act>>
 CInit == val = 0 /\ act = [name |-> "Init"]
-Incr == /\ val < MaxVal /\ val' = val + 1 /\ act' = [name |-> "Incr", read |-> val, written |-> val + 1]
+Incr == /\ val < MaxVal /\ val' = val + 1
+        /\ act' = [name |-> "Incr", read |-> val, written |-> val + 1, inhold |-> FALSE]
 CNext == Incr
 NoLostUpdate == [][act'.name = "Incr" => (act'.read = val /\ act'.written = val + 1 /\ val' = act'.written)]_cvars
+(* the lock excludes: no locked section of one process lies inside the interval in which another
+   process (here: the parent, across the start of its children) held the same lock *)
+ExclusiveHold == [][act'.name = "Incr" => ~act'.inhold]_cvars
 =============================================================================
